@@ -23,41 +23,52 @@ def module_path_of(target_rel):
     return "::".join(["crate"] + parts)
 
 
-def stage_replay(extra_root_modules):
-    """Scratch tree with harness modules + shim + generated test modules injected under cfg(test).
-    extra_root_modules: {modname: absolute path of generated .rs}"""
+def stage_replay(extra_root_modules=None):
+    """Scratch tree (tree-replay) with, under cfg(test): Kani harness modules + kani shim, native drivers + util +
+    dispatch, and generated root-level test modules.  extra_root_modules: {modname: absolute path of generated .rs}"""
+    extra_root_modules = extra_root_modules or {}
     tree, _ = stage.stage_plain()
     dst = os.path.join(stage.SCRATCH, "tree-replay")
-    inj = {}
-    for h, target in sorted(stage.kani_inject_map().items()):
-        inj.setdefault(target, []).append(h)
+    H = os.path.join(stage.VERIF, "harness")
+    entries = [(os.path.join(H, src), target, name) for src, target, name in stage.inject_list("kani")]
+    nat = [(os.path.join(H, src), target, name) for src, target, name in stage.inject_list("native")]
+    add = stage.build_injections(tree, entries + nat, "test")
+    root = add.get("src/lib.rs", "")
+    root += f'\n#[cfg(test)]\n#[path = "{H}/shim.rs"]\npub(crate) mod verif_shim;\n'
+    root += f'\n#[cfg(test)]\n#[path = "{H}/native/util.rs"]\npub(crate) mod verif_nat_util;\n'
+    root += f'\n#[cfg(test)]\n#[path = "{H}/native/root.rs"]\nmod verif_nat_root;\n'
+    root += "\n#[cfg(test)]\npub(crate) fn verif_native_dispatch(k: &str, t: &[&str]) -> Option<String> {\n"
+    for _, _, name in nat:
+        root += f"    if let Some(r) = crate::{name}::dispatch(k, t) {{ return Some(r); }}\n"
+    root += "    None\n}\n"
+    for mod, path in sorted(extra_root_modules.items()):
+        root += f'\n#[cfg(test)]\n#[path = "{path}"]\nmod {mod};\n'
+    add["src/lib.rs"] = root
 
     def transform(rel, data):
-        if rel in inj:
-            s = data.decode()
-            for h in inj[rel]:
-                src = os.path.join(stage.VERIF, "harness", "kani", h)
-                s += f'\n#[cfg(test)]\n#[path = "{src}"]\npub(crate) mod verif_kani_{h[:-3]};\n'
-            data = s.encode()
-        if rel == "src/lib.rs":
-            s = data.decode()
-            s += f'\n#[cfg(test)]\n#[path = "{stage.VERIF}/harness/shim.rs"]\npub(crate) mod verif_shim;\n'
-            for mod, path in sorted(extra_root_modules.items()):
-                s += f'\n#[cfg(test)]\n#[path = "{path}"]\nmod {mod};\n'
-            data = s.encode()
+        if rel in add:
+            data = (data.decode() + add[rel]).encode()
         return data
 
     with stage.Lock("stage-replay"):
         stage._sync_transformed(tree, dst, transform)
+        # the API-level replay driver lives in tests/
+        tp = os.path.join(dst, "tests", "verif_api_replay.rs")
+        src = open(os.path.join(H, "api", "verif_api_replay.rs")).read()
+        if not os.path.exists(tp) or open(tp).read() != src:
+            with open(tp, "w") as f:
+                f.write(src)
     return dst
 
 
-def harness_fn_path(harness):
+def harness_fn_path(harness, via_reexport=False):
     """Find which harness file defines `harness` and return its full Rust path."""
-    for h, target in stage.kani_inject_map().items():
-        src = open(os.path.join(stage.VERIF, "harness", "kani", h)).read()
+    for srcrel, target, name in stage.inject_list("kani"):
+        src = open(os.path.join(stage.VERIF, "harness", srcrel)).read()
         if re.search(r"\b" + re.escape(harness) + r"\b", src):
-            return f"{module_path_of(target)}::verif_kani_{h[:-3]}::{harness}"
+            if via_reexport:
+                return f"crate::{name}::{harness}"
+            return f"{module_path_of(target)}::{name}::{harness}"
     return None
 
 
@@ -83,7 +94,7 @@ def run_tests(tree, test_filter, release=False, timeout=3600):
 def replay_kani_model(prop, harness, values, release=False):
     """Returns dict {reproduced: bool|None, path, detail}.  reproduced=None => could not build/run."""
     os.makedirs(OUT_DIR, exist_ok=True)
-    fnpath = harness_fn_path(harness)
+    fnpath = harness_fn_path(harness, via_reexport=True)
     if fnpath is None:
         return {"reproduced": None, "path": None, "detail": "harness source not found"}
     tname = f"verif_replay_{harness}"
@@ -116,3 +127,41 @@ fn {tname}() {{
         f.write("\n/* outcome ({} profile, {:.0f}s): reproduced={}\n{}\n*/\n".format(
             "release" if release else "dev", secs, rep, detail.replace("*/", "* /")))
     return {"reproduced": rep, "path": gen, "detail": detail, "secs": secs}
+
+
+# ------------------------------------------------------------------------------------------------
+# API-level replay: drive the public API of the real build with a JSON scenario
+# ------------------------------------------------------------------------------------------------
+def api_replay(spec, release=False, timeout=1800):
+    """spec: dict (see harness/api/verif_api_replay.rs).  Returns (list of step outcome dicts | None, raw output)."""
+    import json
+    dst = stage_replay({})
+    os.makedirs(OUT_DIR, exist_ok=True)
+    sp = os.path.join(stage.SCRATCH, f"api_spec_{os.getpid()}.json")
+    with open(sp, "w") as f:
+        json.dump(spec, f)
+    env = dict(stage.ENV)
+    env["CARGO_TARGET_DIR"] = REPLAY_TARGET
+    env["VERIF_API_SPEC"] = sp
+    env["RUST_BACKTRACE"] = "0"
+    cmd = ["cargo", "+" + stage.REPO_TOOLCHAIN, "test", "--offline", "--test", "verif_api_replay"]
+    if release:
+        cmd.append("--release")
+    cmd += ["--", "--nocapture", "--test-threads", "1"]
+    with stage.Lock("replay-run"):
+        try:
+            r = subprocess.run(cmd, cwd=dst, env=env, capture_output=True, text=True, timeout=timeout)
+            out = r.stdout + "\n" + r.stderr
+        except subprocess.TimeoutExpired:
+            return None, "TIMEOUT"
+    steps = []
+    for line in out.splitlines():
+        i = line.find("VERIF-API: ")
+        if i >= 0:
+            try:
+                steps.append(json.loads(line[i + len("VERIF-API: "):]))
+            except ValueError:
+                pass
+    if not steps:
+        return None, out[-4000:]
+    return steps, out
